@@ -176,7 +176,7 @@ PROPS = {
         "lean_modules": ["Props.C13"],
         "harness": [
             {"sub": "reserve", "quick": {"cases": 2000}, "thorough": {"cases": 100000}, "timeout": 3000},
-            e2e("delegated", 240, 6000, configs="w2,w3,seq", label="reserve-policy"),
+            e2e("delegated", 400, 6000, configs="w2,w3,seq", label="reserve-policy"),
         ],
         "rule": "reserve-differential: (a) planner: random blocks of 1-12 transactions over 1-4 senders with costs from 0 to overflowing max_balance_spending, queried for random (txid, address) pairs in random order with repetitions on the real ReservePlanner vs Model/Reserve.requiredAfter; (b) journal scan: random valid journals (forward-simulated balances; transfers incl. self-transfers and zero amounts, self-destructs with beneficiary, balance changes, unrelated entries, entries before the checkpoint, root-value transfer present/absent, look-alikes of the root transfer) over accounts with and without EIP-7702 designator on the real delegated_debits_since vs Model/Reserve.delegatedDebits (address, balance before first debit, final balance); e2e (reserve-policy): delegated family (see C12) with the reserve on/off; for reserve-on blocks the reference is grevm's sequential path, checked by (1) fundability: a sender whose block-start balance covers the maximum cost of all its transactions is never skipped for lack of funds, (2) against stock revm with the policy off up to the first differing transaction: agreeing transactions must not leave a delegated account (debited in someone else's transaction) below the cost of its later transactions, the first differing one must be a top-level revert with empty output justified by a delegated account ending below that cost; parallel runs (free and under controller schedules) must equal the sequential reference; " + E2E_RULE,
         "trusted_base": E2E_TRUST,
